@@ -785,6 +785,26 @@ func genSend(g *genCtx) {
 	for d := 1; d <= depth; d++ {
 		rec("", d)
 	}
+	// … and a SAMPLE of long scripts (4…9 attempts: non-terminal letters, then any letter): what needs a fourth attempt, a
+	// wrapping ring, an every-other-step repair
+	nonTerminal := ""
+	for _, a := range alphabet {
+		if !strings.ContainsRune("FEAL", a) {
+			nonTerminal += string(a)
+		}
+	}
+	deep := 250
+	if g.thorough() {
+		deep = 4000
+	}
+	for i := 0; i < deep; i++ {
+		n := 4 + g.rng.Intn(6)
+		sc := ""
+		for j := 0; j < n-1; j++ {
+			sc += string(nonTerminal[g.rng.Intn(len(nonTerminal))])
+		}
+		scripts = append(scripts, sc+string(alphabet[g.rng.Intn(len(alphabet))]))
+	}
 	emit := func(sp sessParams, script string, inb uint32, fn, cmdNo, body byte, ent uint32, lun byte, req []byte, fail bool) {
 		prefix := []byte{}
 		switch fn {
@@ -880,7 +900,7 @@ func genSend(g *genCtx) {
 			inb0 := []uint32{0, 0, 5, 0xfffffff0, 0xfffffffb, 0xfffffffe, 0xffffffff, 0x7ffffffd}[g.rng.Intn(8)]
 			var scripts []string
 			attempt := 0
-			for c := 0; c < 2+g.rng.Intn(5); c++ {
+			for c := 0; c < 2+g.rng.Intn(9); c++ {
 				var items []string
 				terminal := false
 				for k := 0; k < 1+g.rng.Intn(4) && !terminal; k++ {
